@@ -295,6 +295,58 @@ def import_arg_cases(ctx, base):
         shutil.rmtree(root, ignore_errors=True)
 
 
+
+# datatypes that reject with ValueError, with a text each accepts / rejects
+_DEFAULT_DT = [("integer", "7", "seven"), ("boolean", "on", "maybe"), ("port-number", "80", "99999"), ("byte-size", "1kb", "1xb"),
+               ("ipaddr-or-hostname", "host1", "a b"), ("identifier", "abc", "1 2"), ("float", "1.5", "x"), ("time-interval", "5m", "5y")]
+# spellings of the text of a <default> element (the empty element has NO character data at all)
+_DEFAULT_TEXT = [("empty-element", lambda good, bad: ""), ("blank", lambda good, bad: " "), ("newline", lambda good, bad: "\n  "),
+                 ("bad", lambda good, bad: bad), ("good", lambda good, bad: good), ("bad-padded", lambda good, bad: "\n " + bad + "\n")]
+
+
+def schema_default_cases(ctx):
+    """schemas whose <default> ELEMENTS (multikey, wildcard key, wildcard multikey; top level and inside a section type) hold
+    a text the datatype rejects - among them the element with no character data at all - loaded with texts that do not give
+    the key, so that the default is converted: the load returns a configuration or raises within the configuration-error
+    family (the text is as valid as a text can be: it is empty, or opens the section)"""
+    import ZConfig
+    for dt, good, bad in _DEFAULT_DT:
+        for tname, mk in _DEFAULT_TEXT:
+            txt = mk(good, bad).replace("&", "&amp;").replace("<", "&lt;")
+            items = {
+                "multikey": "<multikey name='mk' datatype='%s' attribute='mk'><default>%s</default></multikey>" % (dt, txt),
+                "wild-key": "<key name='+' datatype='%s' attribute='wk'><default key='a1'>%s</default></key>" % (dt, txt),
+                "wild-multikey": "<multikey name='+' datatype='%s' attribute='wm'><default key='a1'>%s</default><default key='a1'>%s</default></multikey>" % (dt, good, txt),
+            }
+            for iname, item in items.items():
+                for where in ("top", "sectiontype"):
+                    if where == "top":
+                        xml, texts = "<schema>%s</schema>" % item, ["", "# nothing\n"]
+                    else:
+                        xml = "<schema><sectiontype name='st'>%s</sectiontype><multisection type='st' name='*' attribute='sts'/></schema>" % item
+                        texts = ["<st/>\n", "<st a>\n</st>\n<st b/>\n"]
+                    try:
+                        schema = ZConfig.loadSchemaFile(io.StringIO(xml))
+                    except ZConfig.SchemaError:
+                        ctx.count("schema-default:schema-refused")
+                        continue
+                    except Exception as e:
+                        ctx.count("schema-default:schema-load:" + type(e).__name__)
+                        continue
+                    for text in texts:
+                        try:
+                            ZConfig.loadConfigFile(schema, io.StringIO(text))
+                            out = ["ok"]
+                        except Exception as e:
+                            out = cfgrun.classify_exc(e)
+                        ctx.evaluations += 1
+                        ctx.count("schema-default:%s:%s" % (tname, out[0]))
+                        ctx.nontriv(("schema-default", dt, tname, iname, where, text))
+                        if out[0] == "internal":
+                            ctx.violate("%s escaped from loadConfigFile: the schema's <default> element (%s, %s, %s) does not convert under %s" % (
+                                out[1], tname, iname, where, dt), {"schema_xml": xml, "text": text, "impl": out},
+                                signature="C07:schema-default:%s:%s" % (tname, out[1]))
+
 def run(ctx):
     obligations, discharged, names = core.standard_prelude(ctx, ["ZCV.Props.C07"])
     n_s, n_t = (800, 40) if ctx.thorough() else (70, 18)
@@ -343,6 +395,7 @@ def run(ctx):
             ctx.violate("%s escaped from the loading entry point (%s)" % (what, where), dict(c.replay(), impl=c.out),
                         signature="C07:%s:%s" % (where, what))
     include_arg_cases(ctx, base)
+    schema_default_cases(ctx)
     import_arg_cases(ctx, base)
     # the validator: given a loadable schema, status 0 iff all files valid, else 1 with one message per invalid file
     _validator(ctx, base)
